@@ -46,3 +46,104 @@ Example c07_rows_inhabited :
   decide_stream (Some a) b false = SDec Overwrite /\ decide_lazy no_pkg no_pkg 1 2 = Overwrite /\
   decide_stream (Some a) no_pkg true = SErrExists.
 Proof. vm_compute. repeat split. Qed.
+
+(* A Conflict decision always surfaces as the error of the whole install, and
+   the state handed back is the state in which the clash was met: nothing of
+   another package was replaced on that path. [pre]/[hpre] = the packages and
+   headers installed before the clash, [s] = the state they lead to; for every
+   backend, package list, initial tree. *)
+Theorem c07_no_silent_overwrite : forall b pkgs init pre me post hpre h hpost s1 done1 s acc,
+  pkgs = pre ++ me :: post ->
+  p_files me = hpre ++ h :: hpost ->
+  install_all b pkgs 0 {| s_fs := init; s_if := [] |} [] pre = IOk (s1, done1) ->
+  install_files b pkgs (List.length pre) me s1 [] hpre = IOk (s, acc) ->
+  conflict_at b pkgs me s h ->
+  install b pkgs init = RFail (EConflict (h_path h)) s.
+Proof. exact no_silent_overwrite. Qed.
+Print Assumptions c07_no_silent_overwrite.
+
+Example c07_conflict_inhabited :
+  let dirs := wit_dirs in
+  let x (sm : N) := {| h_path := ["usr"; "bin"; "x"]; h_kind := KReg; h_mode := 493; h_uid := 0; h_gid := 0; h_sum := sm; h_link := [] |} in
+  let a := {| p_name := "a"; p_origin := "a"; p_replaces := []; p_files := dirs ++ [x 2%N] |} in
+  let b := {| p_name := "b"; p_origin := "b"; p_replaces := []; p_files := dirs ++ [x 3%N] |} in
+  forall bk, exists s, install bk [a; b] [] = RFail (EConflict ["usr"; "bin"; "x"]) s /\
+    fs_get (s_fs s) ["usr"; "bin"; "x"] = Some (NFile 2 493 (Some 0) true).
+Proof. intros dirs x a b bk. destruct bk; eexists; (split; [vm_compute; reflexivity | vm_compute; reflexivity]). Qed.
+
+(* For EVERY ordered package list, backend and initial tree: after a successful
+   install, whenever installedFiles names package i for a path, the node there
+   is package i's regular file (its content and mode), the header is listed
+   under package i after the DeleteFunc pruning and under no other package.
+   Hypothesis: no path is shipped as a regular file by one package and as a
+   symbolic link by another — without it the statement fails on tarfs, see
+   [c07_owner_invariant_mixed_kinds_refuted] (finding C07-F5). *)
+Theorem c07_owner_invariant : forall b pkgs init f,
+  no_sym_over_reg pkgs -> install b pkgs init = RDone f ->
+  forall p i, if_get (f_if f) p = Some i ->
+    exists h, In h (p_files (nth i pkgs no_pkg)) /\ h_kind h = KReg /\ h_path h = p /\
+      fs_get (f_fs f) p = Some (NFile (h_sum h) (h_mode h) (Some i) true) /\
+      In h (prune (f_if f) i (nth i (f_files f) [])) /\
+      (forall k h', In h' (prune (f_if f) k (nth k (f_files f) [])) -> h_path h' = p -> k = i).
+Proof. exact owner_invariant. Qed.
+Print Assumptions c07_owner_invariant.
+
+Theorem c07_owner_invariant_mixed_kinds_refuted : exists pkgs f p i,
+  install Lazy pkgs [] = RDone f /\ if_get (f_if f) p = Some i /\
+  forall sm md ow dt, fs_get (f_fs f) p <> Some (NFile sm md ow dt).
+Proof. exact owner_invariant_needs_no_sym_over_reg. Qed.
+Print Assumptions c07_owner_invariant_mixed_kinds_refuted.
+
+(* "every recorded entry exists with the recorded mode and owner" is false on
+   every backend: header owners are never applied (C07-F1) ... *)
+Theorem c07_db_matches_fs_refuted : forall b,
+  ~ (forall pkgs init f, install b pkgs init = RDone f -> DbMatchesFs f).
+Proof. exact db_matches_fs_refuted. Qed.
+Print Assumptions c07_db_matches_fs_refuted.
+
+(* ... and, all owners being root, a directory shipped with two modes keeps the
+   first while both are recorded (C07-F2) *)
+Theorem c07_db_matches_fs_refuted_root_owned : forall b,
+  ~ (forall pkgs init f, install b pkgs init = RDone f ->
+       (forall h, In h (all_hdrs pkgs) -> h_uid h = 0%N /\ h_gid h = 0%N) -> DbMatchesFs f).
+Proof. exact db_matches_fs_refuted_root_owned. Qed.
+Print Assumptions c07_db_matches_fs_refuted_root_owned.
+
+(* What does hold, for every package list in which no package ships a path
+   twice and no path is both a regular file and a symbolic link: every recorded
+   REGULAR-FILE entry whose path has a recorded owner exists with the recorded
+   content and mode, is that package's own, and has the recorded uid/gid exactly
+   when the header says root. Missing from the full statement: directories
+   (C07-F2), non-root owners (C07-F1), symbolic links and hard links (C07-F5,
+   C07-F9), and paths nobody is recorded for — files kept because identical
+   bytes were already there (C07-F8). *)
+Theorem c07_db_matches_fs_partial : forall b pkgs init f,
+  no_sym_over_reg pkgs -> nodup_paths pkgs -> install b pkgs init = RDone f ->
+  forall k entries h, nth_error (f_db f) k = Some entries -> In h entries -> h_kind h = KReg ->
+    if_get (f_if f) (h_path h) = None \/
+    exists n, fs_get (f_fs f) (h_path h) = Some n /\
+      n = NFile (h_sum h) (h_mode h) (Some k) true /\
+      node_perm n = perm_of (h_mode h) /\
+      (h_uid h = 0%N -> h_gid h = 0%N -> node_uid n = h_uid h /\ node_gid n = h_gid h).
+Proof.
+  intros b pkgs init f H1 H2 H3 k entries h H4 H5 H6.
+  destruct (db_regular_entries_true b pkgs init f H1 H2 H3 k entries h H4 H5 H6) as [A|A]; [left; exact A|].
+  right. eexists. split; [exact A|]. split; [reflexivity|]. split; [reflexivity|].
+  intros U G. rewrite U, G. split; reflexivity.
+Qed.
+Print Assumptions c07_db_matches_fs_partial.
+
+Example c07_partial_inhabited : exists f entries,
+  install StreamMem [ {| p_name := "a"; p_origin := "a"; p_replaces := [];
+                         p_files := wit_dirs ++ [ {| h_path := ["usr"; "bin"; "x"]; h_kind := KReg; h_mode := 493;
+                                                     h_uid := 0; h_gid := 0; h_sum := 2; h_link := [] |} ] |} ] [] = RDone f /\
+  nth_error (f_db f) 0 = Some entries /\ List.length entries = 3 /\
+  if_get (f_if f) ["usr"; "bin"; "x"] = Some 0.
+Proof. eexists _, _. repeat split; vm_compute; reflexivity. Qed.
+
+(* the rule-table validator run on the real code's observations decides the
+   readable statement *)
+Theorem c07_rules_validator_decides : forall pkgs e tree,
+  agrees (spec_walk pkgs) e tree = true <-> RulesObeyed pkgs e tree.
+Proof. exact rules_validator_decides. Qed.
+Print Assumptions c07_rules_validator_decides.
